@@ -115,6 +115,13 @@ static void attack(const api_t *a, size_t ml, size_t al, int run, int full) {
     for (size_t e = 1; e <= 17; e += 4) { unsigned char *tc = malloc(o.cl + 32); memcpy(tc, o.c, o.cl); vrng_bytes(&R, tc + o.cl, e); memset(out, 0x5a, cap); mlen = 999; int r = a->open(&o, tc, o.cl + e, out, &mlen, 0);
         classify(a, &o, r, mlen, out, o.cl + e - a->tl, &ag, 0, "extend", (long) e); free(tc); }
     emit(a, &o, "extend", &ag, run);
+    /* signatures: S replaced by S + k*L for k = 1..15 (every multiple that still fits in 256 bits) - the same group element, a different
+     * byte string: the canonical-scalar test must reject all of them, not only the first */
+    if (!strncmp(a->name, "sign", 4) && o.cl >= 64) { static const unsigned char Lb[32] = { 0xed, 0xd3, 0xf5, 0x5c, 0x1a, 0x63, 0x12, 0x58, 0xd6, 0x9c, 0xf7, 0xa2, 0xde, 0xf9, 0xde, 0x14, 0, 0, 0, 0, 0, 0, 0, 0, 0, 0, 0, 0, 0, 0, 0, 0x10 };
+        memset(&ag, 0, sizeof ag); unsigned char *tc = malloc(o.cl + 32); memcpy(tc, o.c, o.cl);
+        for (int k = 1; k <= 15; k++) { unsigned carry = 0; for (int i = 0; i < 32; i++) { unsigned v = tc[32 + i] + Lb[i] + carry; tc[32 + i] = (unsigned char) v; carry = v >> 8; }
+            if (carry) break; memset(out, 0x5a, cap); mlen = 999; int r = a->open(&o, tc, o.cl, out, &mlen, 0); classify(a, &o, r, mlen, out, o.cl - a->tl, &ag, 0, "s_plus_kL", (long) k); }
+        free(tc); emit(a, &o, "s_plus_kL", &ag, run); }
     v_gfree(&g);
 }
 /* associated data of 4 GiB + 64 bytes (a sparse anonymous mapping: untouched pages read as zero and cost no memory): lengths whose
